@@ -7,12 +7,23 @@ import TinysetModel.Proofs.Demo
 sequence `Set64::hash` feeds to the hasher (the encoded members, sorted).  The hypotheses are only `WF` of the
 operands: nothing is assumed about how they were built, their layouts or capacities.
 `Debug` of the untyped sets prints the type name followed by the list produced by `iter()`, i.e. `elems`
-(C04: exactly the members, once each); there is nothing further to prove about it in the model. -/
+(C04: exactly the members, once each): `debug_lists_members`; the text itself is compared with the
+implementation's on every audited state (`dbg` lines). -/
 namespace C08
 open SC
 
 section generic
 variable {c : Cfg}
+
+/-- `Debug` of an untyped set is its type name followed by a list that holds exactly the members, each once,
+`len()` of them — for every well-formed representation of every layout -/
+theorem debug_lists_members (ok : CfgOK c) (name : String) {r : Rp} (wf : WF c r) :
+    ∃ l : List Nat, debugStr c name r = name ++ " " ++ toString l ∧ l.Nodup ∧ l.length = len r ∧
+      ∀ x, x ∈ l ↔ contains c r x = true ∧ x < 2 ^ c.W := by
+  have a := absOK_of_wf ok wf
+  refine ⟨elems c r, rfl, a.nodup, a.len.symm, fun x => ⟨fun h => ?_, fun h => ?_⟩⟩
+  · exact ⟨(contains_refines ok wf x (a.range x h)).mpr h, a.range x h⟩
+  · exact (contains_refines ok wf x h.2).mp h.1
 
 /-- `a == b` exactly when `a` and `b` have the same members (any two well-formed representations) -/
 theorem eq_iff_same_members (ok : CfgOK c) {a b : Rp} (wa : WF c a) (wb : WF c b) :
